@@ -53,7 +53,10 @@ func mkBlocks(sameHash bool) [nBlk]types.BlockID {
 	a := types.BlockID{Hash: bytes.Repeat([]byte{0xAA}, 20), PartsHeader: types.PartSetHeader{Total: 1, Hash: bytes.Repeat([]byte{0xA1}, 20)}}
 	b := types.BlockID{Hash: bytes.Repeat([]byte{0xBB}, 20), PartsHeader: types.PartSetHeader{Total: 2, Hash: bytes.Repeat([]byte{0xB1}, 20)}}
 	if sameHash {
+		// A and B are as close as two different block ids can be: same block hash, same
+		// part count, part-set hashes that differ only in their last byte
 		b.Hash = bytes.Repeat([]byte{0xAA}, 20)
+		b.PartsHeader = types.PartSetHeader{Total: 1, Hash: append(bytes.Repeat([]byte{0xA1}, 19), 0xA2)}
 	}
 	return [nBlk]types.BlockID{a, b, {}}
 }
